@@ -248,7 +248,14 @@ func baseLoadFile(L *LState) int {
 		}
 		defer reader.(*os.File).Close()
 	}
-	return loadaux(L, reader, chunkname)
+	// as LState.LoadFile (luaL_loadfile): a first line that starts with '#' is skipped
+	text, err := skipFirstLine(reader)
+	if err != nil {
+		L.Push(LNil)
+		L.Push(LString(fmt.Sprintf("%v: %v", chunkname, err)))
+		return 2
+	}
+	return loadaux(L, text, chunkname)
 }
 
 func baseLoadString(L *LState) int {
